@@ -199,6 +199,13 @@ Section Drive.
                        | Some _ => false
                        end)
             (combine (seq 0 (List.length (c_objs c))) (c_objs c)).
+  (* the conclusion of one_run_per_object, evaluated: every logged section was performed by an
+     instance of the run of the instance its object was made for *)
+  Definition run_iso_ok (c : cfg) : bool :=
+    forallb (fun e => match nth_error (c_objs c) (t_obj e) with
+                      | Some r => N.eqb (run_of c (o_inst r)) (run_of c (t_inst e))
+                      | None => false
+                      end) (c_trace c).
   Definition gens_ok (c : cfg) : bool :=
     l_eqb Nat.eqb (c_gens c) (flat_map (ogen sstate) (c_objs c)).
 End Drive.
